@@ -454,3 +454,303 @@ pub fn gen_queries(seed: u64, tier: &str) -> Vec<String> {
     }
     out.lines
 }
+
+fn all_paths(t: &RefTree, cur: &mut Vec<usize>, out: &mut Vec<(Vec<usize>, RefTree)>) {
+    out.push((cur.clone(), t.clone()));
+    if let RefTree::Node(_, cs) = t {
+        for (i, c) in cs.iter().enumerate() {
+            cur.push(i);
+            all_paths(c, cur, out);
+            cur.pop();
+        }
+    }
+}
+
+fn gpath(root: usize, p: &[usize]) -> String {
+    let mut s = format!("g{}", root);
+    for i in p {
+        s.push_str(&format!(".{}", i));
+    }
+    s
+}
+
+/// C14: replace every position by replacements of different size and shape
+pub fn gen_replace(seed: u64, tier: &str) -> Vec<String> {
+    let mut rng = Rng::new(seed ^ 0xC14);
+    let mut out = Out { lines: vec![], next_id: 0 };
+    header(&mut out.lines);
+    let mut case = 0usize;
+    let bes: Vec<&str> = backends().into_iter().filter(|b| !b.ends_with("ref")).collect();
+    let mut trees: Vec<RefTree> = small_red_trees(if tier == "thorough" { 5 } else { 4 });
+    // shared, deduplicated sub-trees occurring several times
+    let sub = RefTree::Node(1, vec![RefTree::Tok(10, "ab".into()), RefTree::Tok(12, "+".into())]);
+    trees.push(RefTree::Node(0, vec![sub.clone(), RefTree::Tok(11, "é".into()), sub.clone(), RefTree::Node(2, vec![sub.clone()])]));
+    let n_random = if tier == "thorough" { 1500 } else { 150 };
+    for i in 0..n_random {
+        trees.push(random_red_tree(&mut rng, i % 10 == 0));
+    }
+    for (ti, t) in trees.iter().enumerate() {
+        start_case(&mut out, &mut case, t, &mut rng, bes[ti % bes.len()]);
+        out.lines.push(format!("api {}", if ti % 2 == 0 { "plain" } else { "resolved" }));
+        let mut sim = Sim::new(t, "g0", &mut out);
+        sim.nav(0, &["descendants_with_tokens"], &mut out);
+        let mut positions = vec![];
+        all_paths(t, &mut vec![], &mut positions);
+        if positions.len() > 12 {
+            // random positions of large trees
+            let mut sel = vec![];
+            for _ in 0..10 {
+                sel.push(rng.pick(&positions).clone());
+            }
+            positions = sel;
+        }
+        let mut next_g = 1usize;
+        for (path, el) in positions {
+            // arena id of the position: walk the arena along the path
+            let mut x = 0usize;
+            for i in &path {
+                x = sim.arena.nodes[x].children[*i];
+            }
+            let n_repl = if tier == "thorough" { 6 } else { 4 };
+            for k in 0..n_repl {
+                // the replacement is built through the same cache (as the child of a scratch root)
+                let repl: RefTree = match (&el, k) {
+                    (_, 0) => el.clone(), // an equal element: the result must equal the original
+                    (RefTree::Tok(kind, _), 1) if !static_kind(*kind) => RefTree::Tok(*kind, "".into()),
+                    (RefTree::Tok(kind, _), 2) if !static_kind(*kind) => RefTree::Tok(*kind, "longer→text".into()),
+                    (RefTree::Tok(kind, s), _) => {
+                        if static_kind(*kind) { RefTree::Tok(*kind, s.clone()) } else { RefTree::Tok(*kind, rng.pick(&TEXTS[..]).to_string()) }
+                    }
+                    (RefTree::Node(kind, _), 1) => RefTree::Node(*kind, vec![]),
+                    (RefTree::Node(kind, cs), 2) => {
+                        let mut cs2 = cs.clone();
+                        cs2.push(random_token(&mut rng));
+                        cs2.insert(0, RefTree::Node(3, vec![random_token(&mut rng)]));
+                        RefTree::Node(*kind, cs2)
+                    }
+                    (RefTree::Node(kind, _), _) => match random_red_tree(&mut rng, false) {
+                        RefTree::Node(_, cs) => RefTree::Node(*kind, cs),
+                        t => t,
+                    },
+                };
+                // sometimes a replacement of another kind: must panic, not corrupt
+                let repl = if k == 3 && rng.chance(1, 4) {
+                    match repl {
+                        RefTree::Tok(kind, s) if !static_kind(kind) => RefTree::Tok(if kind == 10 { 11 } else { 10 }, s),
+                        RefTree::Node(kind, cs) => RefTree::Node((kind + 1) % 4, cs),
+                        r => r,
+                    }
+                } else {
+                    repl
+                };
+                out.lines.push("builder c0".into());
+                let scratch = RefTree::Node(3, vec![repl.clone()]);
+                emit_tree(&scratch, &mut out.lines, &mut rng);
+                out.lines.push("finish".into());
+                let scratch_g = next_g;
+                next_g += 1;
+                out.lines.push(format!("replace e{} g{}.0", sim.eid(x), scratch_g));
+                let kinds_match = match (&el, &repl) {
+                    (RefTree::Tok(a, _), RefTree::Tok(b, _)) => a == b,
+                    (RefTree::Node(a, _), RefTree::Node(b, _)) => a == b,
+                    _ => false,
+                };
+                if kinds_match {
+                    let res_g = next_g;
+                    next_g += 1;
+                    out.lines.push(format!("heads g{}", res_g));
+                    out.lines.push(format!("text g{}", res_g));
+                    if k == 0 {
+                        out.lines.push(format!("geq g0 g{}", res_g));
+                        out.lines.push(format!("ghash g{}", res_g));
+                    } else if path.len() > 0 && rng.chance(1, 3) {
+                        // what is off the spine is shared with the original, not copied
+                        out.lines.push(format!("ids g0"));
+                        out.lines.push(format!("ids g{}", res_g));
+                    }
+                }
+            }
+        }
+        // the original tree and the red tree built on it are unchanged
+        out.lines.push("dump g0".into());
+        sim.nav(0, &["descendants_with_tokens"], &mut out);
+    }
+    out.lines
+}
+
+/// texts of a given byte length built from 1-4 byte characters in a given pattern
+fn text_of_len(len: usize, pattern: usize, rng: &mut Rng) -> String {
+    let chars = ['a', 'é', '→', '\u{1F600}'];
+    let mut s = String::new();
+    let mut i = 0;
+    while s.len() < len {
+        let want = len - s.len();
+        let c = match pattern {
+            0 => 'a',
+            1 => chars[i % 2],
+            2 => chars[(i % 3).min(2)],
+            3 => chars[3 - (i % 4)],
+            4 => if i % 5 == 0 { 'a' } else { '\u{1F600}' },
+            _ => *rng.pick(&chars[..]),
+        };
+        let c = if c.len_utf8() > want { chars.iter().rev().cloned().find(|d| d.len_utf8() <= want).unwrap_or('a') } else { c };
+        s.push(c);
+        i += 1;
+    }
+    s
+}
+
+/// C19: display and debug output
+pub fn gen_fmt(seed: u64, tier: &str) -> Vec<String> {
+    let mut rng = Rng::new(seed ^ 0xC19);
+    let mut out = Out { lines: vec![], next_id: 0 };
+    header(&mut out.lines);
+    let mut case = 0usize;
+    let bes: Vec<&str> = backends().into_iter().filter(|b| !b.ends_with("ref")).collect();
+    // every length 0..40 (thorough 0..60) x alignment patterns, plus characters that need escaping
+    let maxlen = if tier == "thorough" { 60 } else { 40 };
+    let patterns = if tier == "thorough" { 12 } else { 8 };
+    for len in 0..=maxlen {
+        let mut toks = vec![];
+        for pat in 0..patterns {
+            toks.push(RefTree::Tok(10, text_of_len(len, pat, &mut rng)));
+        }
+        // shifted alignments: a 1..3 byte prefix before a run of 4-byte characters
+        for pre in 1..4 {
+            if len > pre {
+                let mut s = "a".repeat(pre);
+                s.push_str(&text_of_len(len - pre, 4, &mut rng));
+                toks.push(RefTree::Tok(11, s));
+            }
+        }
+        let t = RefTree::Node(0, vec![RefTree::Node(1, toks)]);
+        start_case(&mut out, &mut case, &t, &mut rng, bes[len % bes.len()]);
+        let mut sim = Sim::new(&t, "g0", &mut out);
+        sim.nav(0, &["descendants_with_tokens"], &mut out);
+        for x in sim.known() {
+            for what in ["display", "debug", "debug_rec"] {
+                out.lines.push(format!("fmt e{} {}", sim.eid(x), what));
+            }
+        }
+    }
+    // escapes
+    let esc = RefTree::Node(
+        0,
+        vec![
+            RefTree::Tok(10, "q\"uote".into()),
+            RefTree::Tok(10, "back\\slash".into()),
+            RefTree::Tok(10, "nl\nt\tr\r".into()),
+            RefTree::Tok(10, "'single'".into()),
+            RefTree::Tok(11, "ctl\u{1}\u{7f}".into()),
+            RefTree::Tok(11, "long \"quoted\" text that is abbreviated\n".into()),
+        ],
+    );
+    start_case(&mut out, &mut case, &esc, &mut rng, "user");
+    let mut sim = Sim::new(&esc, "g0", &mut out);
+    sim.nav(0, &["descendants_with_tokens"], &mut out);
+    for x in sim.known() {
+        for what in ["display", "debug", "debug_rec"] {
+            out.lines.push(format!("fmt e{} {}", sim.eid(x), what));
+        }
+    }
+    // all trees
+    let mut trees = small_red_trees(if tier == "thorough" { 4 } else { 3 });
+    let n = if tier == "thorough" { 2000 } else { 200 };
+    for i in 0..n {
+        trees.push(if i % 20 == 0 { deep_tree(&mut rng, 40) } else { random_red_tree(&mut rng, i % 10 == 0) });
+    }
+    for (ti, t) in trees.iter().enumerate() {
+        start_case(&mut out, &mut case, t, &mut rng, bes[ti % bes.len()]);
+        let mut sim = Sim::new(t, "g0", &mut out);
+        // formatting on a fresh tree first (it materialises what it needs), then on every element
+        out.lines.push("fmt e0 debug_rec".into());
+        out.lines.push("fmt e0 display".into());
+        sim.nav(0, &["descendants_with_tokens"], &mut out);
+        for x in sim.known() {
+            if sim.arena.nodes[x].children.len() > 10 {
+                continue;
+            }
+            for what in ["display", "debug", "debug_rec"] {
+                out.lines.push(format!("fmt e{} {}", sim.eid(x), what));
+            }
+        }
+    }
+    out.lines
+}
+
+/// C11: token text, static text, text equality
+pub fn gen_tokens(seed: u64, tier: &str) -> Vec<String> {
+    let mut rng = Rng::new(seed ^ 0xC11);
+    let mut out = Out { lines: vec![], next_id: 0 };
+    header(&mut out.lines);
+    let mut case = 0usize;
+    let bes: Vec<&str> = backends().into_iter().filter(|b| !b.ends_with("ref")).collect();
+    // the token forms: static kinds (by text and by kind alone), interned kinds, interned tokens
+    // whose text equals some static text, the empty static text and the empty interned text
+    let forms: Vec<RefTree> = vec![
+        RefTree::Tok(12, "+".into()),
+        RefTree::Tok(13, "".into()),
+        RefTree::Tok(14, "é→".into()),
+        RefTree::Tok(16, "ab".into()),
+        RefTree::Tok(17, "+".into()),
+        RefTree::Tok(10, "+".into()),
+        RefTree::Tok(10, "".into()),
+        RefTree::Tok(11, "+".into()),
+        RefTree::Tok(15, "ab".into()),
+        RefTree::Tok(10, "ab".into()),
+        RefTree::Tok(11, "é→".into()),
+        RefTree::Tok(15, "x".into()),
+        RefTree::Tok(10, "x".into()),
+    ];
+    let n = if tier == "thorough" { 2000 } else { 150 };
+    for i in 0..n {
+        // two trees through one cache (sharing an interner)
+        let mk = |rng: &mut Rng| {
+            let cnt = 2 + rng.below(6);
+            let mut cs = vec![];
+            for _ in 0..cnt {
+                let t = if rng.chance(3, 4) { rng.pick(&forms).clone() } else { random_token(rng) };
+                if rng.chance(1, 5) {
+                    cs.push(RefTree::Node(1, vec![t]));
+                } else {
+                    cs.push(t);
+                }
+            }
+            RefTree::Node(0, cs)
+        };
+        let t1 = if i == 0 { RefTree::Node(0, forms.clone()) } else { mk(&mut rng) };
+        let t2 = mk(&mut rng);
+        start_case(&mut out, &mut case, &t1, &mut rng, bes[i % bes.len()]);
+        out.lines.push("builder c0".into());
+        emit_tree(&t2, &mut out.lines, &mut rng);
+        out.lines.push("finish".into());
+        out.lines.push(format!("api {}", if i % 2 == 0 { "plain" } else { "resolved" }));
+        let mut s1 = Sim::new(&t1, "g0", &mut out);
+        s1.nav(0, &["descendants_with_tokens"], &mut out);
+        let mut s2 = Sim::new(&t2, "g1", &mut out);
+        s2.nav(0, &["descendants_with_tokens"], &mut out);
+        let mut toks: Vec<usize> = vec![];
+        for x in s1.known() {
+            if s1.arena.is_tok(x) {
+                toks.push(s1.eid(x));
+            }
+        }
+        for x in s2.known() {
+            if s2.arena.is_tok(x) {
+                toks.push(s2.eid(x));
+            }
+        }
+        for a in &toks {
+            out.lines.push(format!("resolve e{}", a));
+            out.lines.push(format!("static_text e{}", a));
+            out.lines.push(format!("text_key e{}", a));
+        }
+        // all ordered pairs
+        for a in &toks {
+            for b in &toks {
+                out.lines.push(format!("text_eq e{} e{}", a, b));
+            }
+        }
+    }
+    out.lines
+}
